@@ -390,6 +390,10 @@ def simulate(spec, b=None):
                 E[-1].external_torque = make_load(b, op['coef'], spec['load']['unit'], b.load_gen)
             elif op['op'] == 'redeclare':
                 declare(b.objs, op['rel'])
+            elif op['op'] == 'wrap':
+                # the user wraps the same chain in another Powertrain object (e.g. to hand it to a plotting helper):
+                # the elements and what they recorded belong to the chain, not to the wrapper
+                type(pt)(motor)
             elif op['op'] == 'snap':
                 # the user looks at the results in the middle of a schedule (read-only: must not influence what follows)
                 if len(pt.time) >= 2:
